@@ -403,7 +403,7 @@ func (g *Gen) HistoryReopen() []E {
 		// every kind of operation on the closed handle
 		kinds := []string{"CreateCollection", "DropCollection", "HasCollection", "ListCollections", "Insert", "InsertOne", "Save",
 			"ReplaceById", "UpdateById", "Update", "UpdateFunc", "Delete", "DeleteById", "CreateIndex", "DropIndex", "HasIndex",
-			"ListIndexes", "FindById", "FindAll", "ForEach", "FindFirst", "Count", "Exists", "Derived"}
+			"ListIndexes", "FindById", "FindAll", "ForEach", "IterateDocs", "FindFirst", "Count", "Exists", "Derived"}
 		g.r.Shuffle(len(kinds), func(i, j int) { kinds[i], kinds[j] = kinds[j], kinds[i] })
 		for _, k := range kinds {
 			e := g.event(k)
